@@ -213,6 +213,16 @@ def _eval(
                 DDSErrorCode.EVAL_IN_EVAL,
             )
         key = None if path is None else _eval_ctx.requested_paths[path]
+        # The key of a call with arguments computed at run time comes from the place of the call in the code.
+        # A call that is executed again in the same evaluation with other arguments (a keep in a loop) has the
+        # same key and the same path: it cannot be told apart from the first one.
+        args_sig = _actual_args_sig(fun, args, kwargs)
+        if _eval_ctx.kept_args.setdefault(path, args_sig) != args_sig:
+            raise DDSException(
+                f"The path {path} is kept more than once in the same evaluation, with different "
+                f"arguments (a call to keep in a loop?). Suggestion: use a different path for each of these calls.",
+                DDSErrorCode.OVERLAPPING_PATH,
+            )
         t = _time()
         if key is not None and _store().has_blob(key):
             _logger.debug(f"_eval:Return cached {path} from {key}")
@@ -238,6 +248,22 @@ def _eval(
             _store().store_blob(key, res, codec=None)
             _add_delta(t, ProcessingStage.STORE_COMMIT)
         return res
+
+
+def _actual_args_sig(
+    fun: Callable[..., Any], args: Tuple[Any, ...], kwargs: Dict[str, Any]
+) -> Any:
+    """
+    What identifies the actual arguments of a call: the hash of the value bound to each parameter
+    (whatever the spelling of the call), or the identity of the arguments if they cannot be hashed.
+    """
+    try:
+        return tuple(get_arg_ctx(fun, args, kwargs).named_args.items())
+    except (DDSException, NotImplementedError, TypeError, ValueError):
+        return (
+            tuple(id(arg) for arg in args),
+            tuple((k, id(kwargs[k])) for k in sorted(kwargs)),
+        )
 
 
 def _store() -> Store:
@@ -281,6 +307,7 @@ def _eval_new_ctx(
     _eval_ctx = EvalContext(
         requested_paths={},
         stats_time=dict([(stage, 0.0) for stage in ProcessingStage.all_phases()]),
+        kept_args={},
     )
     try:
         t = _time()
